@@ -154,7 +154,7 @@ def lag_problems(ev):
 
 def analyse(run):
     """Property-level facts of one recorded run.  Returns dict of lists of problems keyed by property id."""
-    P = {k: [] for k in ('C01', 'C04', 'C05', 'C06', 'C13', 'C14', 'C15')}
+    P = {k: [] for k in ('C01', 'C04', 'C05', 'C06', 'C13', 'C14', 'C15', 'C16')}
     ev = run.events
     if run.hung:
         P['C04'].append('run did not finish within the harness time limit')
@@ -280,6 +280,12 @@ def analyse(run):
             if tb[k + extra:] == ta[k:] and tb[k:k + extra][:1] == ['('] and tb[k:k + extra].count('(') == tb[k:k + extra].count(')'):
                 P['C05'].append(f"adopted input {b['digest']} is its predecessor plus the command {' '.join(tb[k:k + extra])[:120]!r}: nothing was simplified")
                 break
+    # C16: the id-based tables behind the sort inference describe the input the simplifications are generated from
+    for e in ev:
+        if e['ev'] == 'stale_tables':
+            P['C16'].append(f"simplifications of {e['mutator']} (granularity {e['gran']}) were generated from an input {e['count']} of whose index "
+                            f"numerals / declared names the tables of collect_information do not know (they describe the input before re-duplication)")
+            break
     # C15: no candidate declares a symbol a second time (unless the input itself does)
     given = set(d_ for e in ev if e['ev'] == 'parsed' for d_ in e.get('dup_decl', []))
     for e in ev:
